@@ -27,9 +27,14 @@
 //                                                    ≥ 16 bytes) of the unicasts one sender produces in one
 //                                                    round; a value that occurs for two recipients (or twice
 //                                                    in one message: prefix dup:) is listed
-//   C07 leaf  <proto> <cfg> ids=<ids> changed=<c>  => leaves=<k> same=<r<round>.<b|u>:<pattern>,…|->
+//   C07 leaf  <proto> <cfg> ids=<ids> changed=<c>  => leaves=<k> same=<r<round>.<b|u>:<path>,…|->
 //                                                    long leaves of the changed party's own messages whose
-//                                                    value is identical in run A and run B_c
+//                                                    value is identical in run A and run B_c (array indices
+//                                                    kept; at most 24 listed, then more:<n>)
+//
+// Every party's stream is wrapped in a recording reader (c07obs.go): the reads are attributed to the
+// executed step through the protocol layer's per-step byte counts.  Executions of a case run
+// concurrently under a weighted semaphore; lines are emitted in a fixed order.
 //
 // Go-side oracle (!VIOLATION): a first message / nonce commitment that repeats anywhere in the
 // campaign between runs in which the sender's stream differs; a run that is not ok.
